@@ -631,11 +631,15 @@ package bitcoin_reader
 //@     invariant forallv(c, chan error, old(allocated(c)) && !old(isDownloadChan(m.downloaders, c)) ==> sent(c) == old(sent(c)))
 //@     invariant forallv(c, chan error, old(allocated(c)) && !old(isDownloadChan(m.downloaders, c)) ==> closed(c) == old(closed(c)))
 
+// listedFor: how many of the first n listed download threads belong to the hash (the meaning of "downloads of one block").
+//@ hfunc listedFor(m *BlockManager, n int, hash bitcoin.Hash32) int reads BlockManager.downloaders, elems(*downloadThread), downloadThread.downloader, BlockDownloader.hash = ite(n <= 0, 0, listedFor(m, n-1, hash) + ite(m.downloaders[n-1].downloader.hash == hash, 1, 0))
 //@ func (*BlockManager).Downloaders
 //@   requires m != nil && threadsOK(m.downloaders) && forall(i, 0, len(m.downloaders), m.downloaders[i].downloader != nil)
+//@   ensures [C16.lists-all-downloads-of-hash] len(result) == listedFor(m, len(m.downloaders), hash)
 //@   modifies m.downloaderLock, allof(BlockDownloader.Mutex), allelems(fmt.Stringer)
 //@   loop 1
 //@     modifies allof(BlockDownloader.Mutex), allelems(fmt.Stringer)
+//@     invariant len(result) == listedFor(m, rangeindex+1, hash)
 //@     invariant (-1 <= rangeindex && rangeindex < len(m.downloaders)) || (len(m.downloaders) == 0 && rangeindex == -1)
 //@     invariant m.downloaders == atentry(m.downloaders) && forall(k, 0, len(m.downloaders), m.downloaders[k] == atentry(m.downloaders[k]) && m.downloaders[k].downloader == atentry(m.downloaders[k].downloader))
 
@@ -647,7 +651,7 @@ package bitcoin_reader
 // A further download of the block is only started while fewer than the configured number are listed for it: after
 // the initial request (one per request, ghost counter "blockRequests"), every call of requestBlock is preceded by
 // a count of the listed downloaders of the hash that is below the limit.
-//@   lemma [C16.top-up-below-limit] before (*BlockManager).requestBlock: ghostv("blockRequests", m) > old(ghostv("blockRequests", m)) ==> activeDownloadCount < m.concurrentBlockRequests
+//@   lemma [C16.top-up-below-limit] before (*BlockManager).requestBlock: ghostv("blockRequests", m) > old(ghostv("blockRequests", m)) ==> activeDownloadCount < m.concurrentBlockRequests && activeDownloadCount == listedFor(m, len(m.downloaders), request.hash)
 //@   modifies allheap, allchans(interface{}), allchans(error), ghost("cancelFoundStarted"), ghost("blockRequests")
 //@   safety [C16]
 //@   loop 1
@@ -686,7 +690,7 @@ package bitcoin_reader
 // AddRequest queues exactly one request carrying the given hash and height (none once the queue is closed).
 //@ func (*BlockManager).AddRequest
 //@   requires m != nil && m.requests != nil && !closed(m.requests)
-//@   ensures [C05.request-logged] !old(m.requestsClosed) ==> sent(m.requests) == old(sent(m.requests)) + 1 && chanlog(m.requests, old(sent(m.requests))) != nil && chanlog(m.requests, old(sent(m.requests))).hash == hash && chanlog(m.requests, old(sent(m.requests))).height == height && result0 != nil && result1 != nil
+//@   ensures [C05.request-logged] !old(m.requestsClosed) ==> sent(m.requests) == old(sent(m.requests)) + 1 && chanlog(m.requests, old(sent(m.requests))) != nil && chanlog(m.requests, old(sent(m.requests))).hash == hash && chanlog(m.requests, old(sent(m.requests))).height == height && result0 != nil && result1 != nil && chanlog(m.requests, old(sent(m.requests))).complete == result0 && chanlog(m.requests, old(sent(m.requests))).abort == result1
 //@   ensures [C05.closed-queue] old(m.requestsClosed) ==> sent(m.requests) == old(sent(m.requests)) && result0 == nil
 //@   ensures !closed(m.requests)
 //@   modifies m.requestLock, chanof(m.requests)
@@ -720,9 +724,13 @@ package bitcoin_reader
 //@     invariant forallv(n, int, old(sent(q)) <= n && n < sent(q) ==> !processedBlock(chanlog(q, n).hash))
 //@     invariant forall(k, 0, len(hashes), heightOf(hashes[k]) == startHeight + (k))
 //@     invariant forallv(n, int, old(sent(q)) <= n && n < sent(q) ==> chanlog(q, n).height == heightOf(chanlog(q, n).hash))
+// The next block is requested only after the previous request completed without an error (nil received from its
+// completion channel): an aborted or failed block ends the round.
+//@     invariant [C05.next-only-after-success] !done && (rangeindex >= 0 ==> lastrecv(chanlog(q, sent(q) - 1).complete) == nil)
 //@   loop 3
 //@     modifies allchans(interface{}), allchans(error)
 //@     invariant sent(q) == atentry(sent(q)) && !closed(q) && complete == atentry(complete) && abort == atentry(abort)
+//@     invariant [C05.error-ends-round] (!blockDone ==> !done) && (blockDone ==> (done == (lastrecv(complete) != nil)))
 
 // nextNode (C13): the node handed out for requests is one of the manager's nodes and was ready (accepted after
 // verification) and not stopped when it was chosen; indexes stay in range while stopped nodes are dropped.
